@@ -40,7 +40,7 @@ SUPPORT_CLASSES = ["NodeExpandedDiGraph", "stDAG", "stDiGraph", "AbstractSourceS
 ALL = MODEL_CLASSES + SUPPORT_CLASSES
 GRAPH_CLASSES = ["NodeExpandedDiGraph", "stDAG", "stDiGraph", "AbstractSourceSinkGraph"]
 
-SIMPLE_FLAGS = ["nonStringNode", "cyclicForDag", "noSourceOrSink", "missingWeight", "negativeWeight",
+SIMPLE_FLAGS = ["coverageLengthWithoutLengthAttr", "coverageLengthWithCoverage", "nonStringNode", "cyclicForDag", "noSourceOrSink", "missingWeight", "negativeWeight",
                 "nonConservingFlow", "constraintNotListOfLists", "constraintEmpty", "constraintEdgeAbsent",
                 "constraintNotTuples", "coverageOutOfRange", "coverageLengthOutOfRange", "kNonPositive", "kNotInt",
                 "badWeightType", "badOrigin", "unknownStart", "unknownEnd", "scalingOutOfRange", "ignoreWrongShape",
@@ -703,6 +703,7 @@ class Guards:
         self.idx, self.cls, self.gmap = idx, cls, gmap
         self.rows = []
         self.seen_sites = set()
+        self.collect = None      # maintenance mode (--record-paths): gather the enclosing conditions instead of checking them
 
     def is_value_error(self, r):
         e = r.exc
@@ -712,74 +713,94 @@ class Guards:
             e = e.func
         return isinstance(e, ast.Name) and e.id == "ValueError"
 
-    def walk_fn(self, owner, fn, dyn, phase, stack):
+    def walk_fn(self, owner, fn, dyn, phase, stack, prefix=()):
+        """`prefix`: the path condition of the call site (enclosing tests in the callers, outermost first)"""
         key = (owner, fn.name, dyn)
         if key in stack or len(stack) > 7:
             return
         stack = stack + [key]
-        self.block(fn.body, owner, fn, dyn, phase, stack, [])
+        saved = getattr(self, "local_from", 0)
+        self.local_from = len(prefix)
+        self.block(fn.body, owner, fn, dyn, phase, stack, list(prefix))
+        self.local_from = saved
 
     def emit(self, owner, fn, conds, phase, lineno):
         site = (owner, fn.name, lineno)
         if site in self.seen_sites:
             return
         self.seen_sites.add(site)
-        cond = conds[-1] if conds else "<unconditional>"
+        # the guarding condition is the innermost test of the function containing the raise; the tests enclosing it in that
+        # function (outermost first, `else: a | b` for else-branches of an if/elif chain, `except T` for handlers) are its
+        # path condition. Conditions around the *call sites* leading to the function are not part of it: which call site
+        # reaches a shared helper first is an artefact of the traversal order.
+        local = conds[self.local_from:]
+        cond = local[-1] if local else "<unconditional>"
+        path = " && ".join(local[:-1])
         func = f"{owner}.{fn.name}"
-        flags = self.gmap.get(func + "|" + cond, self.gmap.get(cond))
-        if flags is None:
-            flags = ["unmapped"]
-        elif isinstance(flags, str):
-            flags = [flags]
+        entry = self.gmap.get(func + "|" + cond, self.gmap.get(cond))
+        why = ""
+        if entry is None:
+            flags, why = ["unmapped"], cond
+        else:
+            if isinstance(entry, dict):
+                flags, within = entry.get("flag"), entry.get("within")
+            else:
+                flags, within = entry, None
+            flags = [flags] if isinstance(flags, str) else list(flags)
+            if self.collect is not None:
+                key = func + "|" + cond if func + "|" + cond in self.gmap else cond
+                self.collect.setdefault(key, set()).add(path)
+            elif within is None or path not in within:
+                # the guard is known, but not under these enclosing conditions: someone has to look at it again
+                flags, why = ["unmapped"], f"{cond} -- enclosing conditions not recorded in guards_map.json: [{path}]"
         for fl in flags:
-            self.rows.append({"cls": self.cls, "func": func, "cond": cond, "ctx": " && ".join(conds[:-1]),
+            self.rows.append({"cls": self.cls, "func": func, "cond": cond, "path": path, "why": why,
                               "flag": fl, "phase": phase, "line": lineno})
 
-    def calls(self, node, owner, fn, dyn, phase, stack):
+    def calls(self, node, owner, fn, dyn, phase, stack, conds=()):
         for c in Alias.calls_in(None, node):
-            self.call(c, owner, dyn, phase, stack)
+            self.call(c, owner, dyn, phase, stack, conds)
 
-    def call(self, c, owner, dyn, phase, stack):
+    def call(self, c, owner, dyn, phase, stack, conds=()):
         idx = self.idx
         f = c.func
         if is_super_init(c):
             for b in idx.mro(owner)[1:]:
                 m = idx.own_methods(b).get("__init__")
                 if m is not None:
-                    self.walk_fn(b, m, dyn, phase, stack)
+                    self.walk_fn(b, m, dyn, phase, stack, conds)
                     break
             return
         cc = called_class(idx, c)
         if cc:
             o, m = idx.method(cc, "__init__")
             if m is not None:
-                self.walk_fn(o, m, cc, phase, stack)
+                self.walk_fn(o, m, cc, phase, stack, conds)
             return
         if isinstance(f, ast.Attribute):
             if isinstance(f.value, ast.Name) and f.value.id == "self":
                 o, m = idx.method(dyn, f.attr)
                 if m is not None:
-                    self.walk_fn(o, m, dyn, phase, stack)
+                    self.walk_fn(o, m, dyn, phase, stack, conds)
                 return
             g = idx.graph_method(f.attr)
             if g:
                 o, m = idx.method(g, f.attr)
-                self.walk_fn(o, m, g, phase, stack)
+                self.walk_fn(o, m, g, phase, stack, conds)
 
     def block(self, stmts, owner, fn, dyn, phase, stack, conds):
         for s in stmts:
             if isinstance(s, (ast.FunctionDef, ast.ClassDef)):
                 continue
             if isinstance(s, ast.If):
-                self.calls(s.test, owner, fn, dyn, phase, stack)
-                chain, node = [], s
+                self.calls(s.test, owner, fn, dyn, phase, stack, conds)
                 t = unparse(s.test)
                 self.block(s.body, owner, fn, dyn, phase, stack, conds + [t])
                 neg = [t]
                 rest = s.orelse
                 while len(rest) == 1 and isinstance(rest[0], ast.If):
                     e = rest[0]
-                    self.calls(e.test, owner, fn, dyn, phase, stack)
+                    self.calls(e.test, owner, fn, dyn, phase, stack, conds + ["else: " + " | ".join(neg)])
                     t2 = unparse(e.test)
                     self.block(e.body, owner, fn, dyn, phase, stack, conds + [t2])
                     neg.append(t2)
@@ -788,7 +809,7 @@ class Guards:
                     self.block(rest, owner, fn, dyn, phase, stack, conds + ["else: " + " | ".join(neg)])
                 continue
             if isinstance(s, (ast.For, ast.While)):
-                self.calls(s.iter if isinstance(s, ast.For) else s.test, owner, fn, dyn, phase, stack)
+                self.calls(s.iter if isinstance(s, ast.For) else s.test, owner, fn, dyn, phase, stack, conds)
                 self.block(s.body, owner, fn, dyn, phase, stack, conds)
                 self.block(s.orelse, owner, fn, dyn, phase, stack, conds)
                 continue
@@ -806,7 +827,7 @@ class Guards:
                 if self.is_value_error(s):
                     self.emit(owner, fn, conds, phase, s.lineno)
                 continue
-            self.calls(s, owner, fn, dyn, phase, stack)
+            self.calls(s, owner, fn, dyn, phase, stack, conds)
 
     def run(self):
         o, init = self.idx.method(self.cls, "__init__")
@@ -896,9 +917,9 @@ def lean_guards(table):
         for g in c["guards"]:
             fl = flag_lean(g["flag"])
             if fl is None:
-                fl = f"(.unmapped {lstr(g['cond'])})"
+                fl = f"(.unmapped {lstr(g['why'] or g['cond'])})"
             ph = ".construct" if g["phase"] == "construct" else ".solve"
-            rows.append(f"⟨{lstr(g['cls'])}, {lstr(g['func'])}, {lstr(g['cond'])}, {fl}, {ph}⟩")
+            rows.append(f"⟨{lstr(g['cls'])}, {lstr(g['func'])}, {lstr(g['cond'])}, {lstr(g['path'])}, {fl}, {ph}⟩")
         out.append(f"def {nm} : ClassGuards where")
         out.append(f"  cls := {lstr(c['cls'])}")
         out.append(f"  guards := {llist(rows)}")
@@ -969,9 +990,10 @@ def explain_broken(ctx, prop_file):
         shown = set()
         for c in res["guards"]:
             for g in c["guards"]:
-                if g["flag"] == "unmapped" and (g["func"], g["cond"]) not in shown:
-                    shown.add((g["func"], g["cond"]))
-                    print(f"[{pid}]   unclassified guard (first reached from {c['cls']}): {g['func']} | {g['cond']}   -> add it to harness/guards_map.json")
+                if g["flag"] == "unmapped" and (g["func"], g["cond"], g["path"]) not in shown:
+                    shown.add((g["func"], g["cond"], g["path"]))
+                    print(f"[{pid}]   unclassified guard (first reached from {c['cls']}): {g['func']} | {g['cond']}   enclosing conditions: [{g['path']}]"
+                          f"   -> classify it in harness/guards_map.json (flag + `within`)")
     if pid == "C18":
         m = re.search(r"def knownBad.*?:=\s*\[(.*?)\]\s*\n\n", text, re.S)
         known = set(re.findall(r'\("(\w+)",\s*"(\w+)"\)', m.group(1))) if m else set()
@@ -988,6 +1010,29 @@ def main():
     repo = os.environ.get("FLOWPATHS_REPO", "/repo")
     if len(sys.argv) > 1 and sys.argv[1] == "--json":
         print(json.dumps(extract(repo), indent=1, default=str))
+        return
+    if len(sys.argv) > 1 and sys.argv[1] == "--record-paths":
+        # maintenance, after a human looked at the guards reported as unmapped: record the enclosing conditions under which
+        # every classified guard is reached in the current tree as its accepted `within` list
+        raw = json.loads(MAP_FILE.read_text())
+        gmap = {k: v for k, v in raw.items() if not k.startswith("_")}
+        idx = Index(repo)
+        seen = {}
+        for cls in ALL:
+            if cls in idx.classes:
+                g = Guards(idx, cls, gmap)
+                g.collect = seen
+                g.run()
+        for k, v in gmap.items():
+            flag = v.get("flag") if isinstance(v, dict) else v
+            raw[k] = {"flag": flag, "within": sorted(seen.get(k, []))}
+        lines = ["{"]
+        items = list(raw.items())
+        for i, (k, v) in enumerate(items):
+            lines.append(" " + json.dumps(k) + ": " + json.dumps(v) + ("," if i + 1 < len(items) else ""))
+        lines.append("}")
+        MAP_FILE.write_text("\n".join(lines) + "\n")
+        print(f"recorded the enclosing conditions of {len(seen)} guard conditions in {MAP_FILE}")
         return
     if len(sys.argv) > 1 and sys.argv[1] == "--unused":
         gmap = {k: v for k, v in json.loads(MAP_FILE.read_text()).items() if not k.startswith("_")}
